@@ -36,7 +36,13 @@ func VH_C11_Concurrent() {
 	case 2:
 		st = config.StoreDir
 	}
-	s := New(vhConf(st))
+	cf := vhConf(st)
+	if st == config.StoreMem && vh.Bool("memOverDir") {
+		// the memory store layered over a (here empty) root directory
+		cf.Storage.RootDir = vhRoot
+		vh.Tag("store", "mem-over-dir")
+	}
+	s := New(cf)
 	img1, img2 := vhTwoImages(s, "a")
 	d1, d2 := digest.Canonical.FromBytes(img1), digest.Canonical.FromBytes(img2)
 	vh.Assert(vhPutManifest(s, "a", "base", types.MediaTypeOCI1Manifest, img1).Status() == 201, "C11.setup")
@@ -44,9 +50,9 @@ func VH_C11_Concurrent() {
 	a1, a2 := vhArtifact(1, subj, true), vhArtifact(2, subj, true)
 	scenario := vh.Param("SCENARIO", -1)
 	if scenario < 0 {
-		scenario = vh.Choice("scenario", 7)
+		scenario = vh.Choice("scenario", 8)
 	}
-	names := []string{"two-referrers-same-subject", "two-pushes-same-tag", "push-vs-delete-tag", "push-referrer-vs-delete-referrer", "push-vs-reads", "upload-vs-manifest-push", "two-first-pushes-to-a-new-repository"}
+	names := []string{"two-referrers-same-subject", "two-pushes-same-tag", "push-vs-delete-tag", "push-referrer-vs-delete-referrer", "push-vs-reads", "upload-vs-manifest-push", "two-first-pushes-to-a-new-repository", "upload-vs-probe-of-the-same-digest"}
 	vh.Tag("scenario", names[scenario])
 	switches := vh.Param("SWITCHES", 2)
 	c1, c2 := 0, 0
@@ -139,6 +145,17 @@ func VH_C11_Concurrent() {
 		vh.Preempt(0)
 		vh.Assert(c1 == 201 && c2 == 201, "C11.concurrent-request-refused")
 		vh.Assert(vhGetBlob(s, "n", digest.Canonical.FromBytes(p)).Status() == 200 && vhGetBlob(s, "n", digest.Canonical.FromBytes(q)).Status() == 200, "C11.acknowledged-blob-lost")
+	case 7:
+		// a client uploads a blob while another one asks whether it exists
+		x := []byte("probed-content")
+		dx := digest.Canonical.FromBytes(x)
+		vh.Preempt(switches)
+		vh.Go(func() { _, c1 = vhPushBlob(s, "a", x) })
+		vh.Go(func() { c2 = vhDo(s, "HEAD", "/v2/a/blobs/"+dx.String(), nil, nil, nil).Status() })
+		vh.Join()
+		vh.Preempt(0)
+		vh.Assert(c1 == 201 && (c2 == 200 || c2 == 404), "C11.concurrent-request-refused")
+		vh.Assert(vhGetBlob(s, "a", dx).Status() == 200, "C11.acknowledged-blob-lost")
 	}
 	vh.Assert(vhBytesEq(vhGetManifest(s, "a", "base").Body, img1), "C11.unrelated-tag-lost")
 	vh.Cover("C11.concurrent-end")
